@@ -1,5 +1,10 @@
 use crate::{ansi::parse_next_number, EngineResult, Palette, ParserError, Position, Rectangle, Size};
 
+/// Largest width or height of a sixel image in pixels, larger requests are cut to it.
+const MAX_SIXEL_SIZE: i32 = 2048;
+/// Number of sixel colour registers.
+const MAX_SIXEL_COLORS: i32 = 1024;
+
 #[derive(Clone, Debug, Copy)]
 pub enum SixelState {
     Read,
@@ -156,14 +161,14 @@ impl SixelParser {
                     self.vertical_scale = self.parsed_numbers[0];
                     self.horizontal_scale = self.parsed_numbers[1];
                     if self.parsed_numbers.len() == 3 {
-                        let height = self.parsed_numbers[2];
+                        let height = self.parsed_numbers[2].min(MAX_SIXEL_SIZE);
                         self.picture_data.resize(height as usize, Vec::new());
                         self.height_set = true;
                     }
 
                     if self.parsed_numbers.len() == 4 {
-                        let height = self.parsed_numbers[3];
-                        let width = self.parsed_numbers[2];
+                        let height = self.parsed_numbers[3].min(MAX_SIXEL_SIZE);
+                        let width = self.parsed_numbers[2].min(MAX_SIXEL_SIZE);
                         self.picture_data.resize(height as usize, vec![0; 4 * width as usize]);
                         self.height_set = true;
                     }
